@@ -264,7 +264,21 @@ def parse_pt(line):
                  "local_pos_dev_dist": v[13], "local_pos_dev_pos": v[14],
                  "same_path_dist": int(tok[i + 17]), "same_path_pos": int(tok[i + 18]), "nbad": int(tok[i + 19]),
                  "badp": [pf(t) for t in tok[i + 20:i + 23]], "levels": int(tok[i + 23])}
-    return {"moved": moved, "safety": safety, "minstep": best, "mindir": bd, "levels": levels, "nbad": nbad, "badp": badp,
+    bounced = None
+    j = i
+    if moved is not None:
+        j = i + 24
+    elif i < len(tok) and tok[i] == "mv":
+        j = i + 2
+    if j < len(tok) and tok[j] == "bn" and tok[j + 1] == "1":
+        v = [pf(t) for t in tok[j + 2:j + 2 + 15]]
+        bounced = {"dir": v[0:3], "step": v[3], "reached": v[4:7], "after_move_dist": v[7], "after_move_dist_maxstep": v[8],
+                   "after_move_pos": v[9], "after_move_pos_maxstep": v[10], "fresh": v[11], "min_next_step": v[12],
+                   "local_pos_dev_dist": v[13], "local_pos_dev_pos": v[14],
+                   "same_path_dist": int(tok[j + 17]), "same_path_pos": int(tok[j + 18]), "nbad": int(tok[j + 19]),
+                   "badp": [pf(t) for t in tok[j + 20:j + 23]], "levels": int(tok[j + 23]),
+                   "levels_before": int(tok[j + 24]), "distance_to_boundary": pf(tok[j + 25])}
+    return {"moved": moved, "bounced": bounced, "safety": safety, "minstep": best, "mindir": bd, "levels": levels, "nbad": nbad, "badp": badp,
             "with_max_step": radii, "level_safety": lsafe}
 
 
@@ -292,6 +306,179 @@ def nan_normal_faces(levels):
     return out
 
 
+# ---------------------------------------------------------------------------
+# the MSC users of the safety: fragments extracted from the source tree at run time
+
+MSC_DIR = os.path.join("src", "celeritas", "em", "msc")
+FRAGS = [
+    # (placeholder, file, regex with one group = the statements)
+    ("@FRAG1@", os.path.join(MSC_DIR, "detail", "UrbanMscScatter.hh"),
+     r"\n(    if \(is_displaced_\)\n    \{\n.*?\n    \})\n\n    // Calculate direction and return"),
+    ("@FRAG2@", os.path.join(MSC_DIR, "UrbanMsc.hh"),
+     r"auto msc_result = \[&\] \{\n(        real_type safety = 0;\n.*?)\n\s*auto mat = track\.make_material_view"),
+    ("@FRAG3@", os.path.join(MSC_DIR, "detail", "UrbanMscSafetyStepLimit.hh"),
+     r"\n(    limit_min_ = msc_range\.limit_min;\n.*?\n    limit_ = max<real_type>\(limit_, limit_min_\);)\n"),
+    ("@FRAG4@", os.path.join(MSC_DIR, "detail", "UrbanMscSafetyStepLimit.hh"),
+     r"UrbanMscSafetyStepLimit::operator\(\)\(Engine& rng\)\n\{\n(.*?)\n\}\n"),
+]
+
+
+def check_msc(ctx, n):
+    """Differential of C11/Msc.v against the safety-dependent statements of UrbanMsc::apply_step,
+    UrbanMscScatter::operator() and UrbanMscSafetyStepLimit (extracted from $VERIF_REPO/src at run time and
+    compiled against the real headers) + the real static UrbanMscScatter::calc_displacement;
+    oracle: the displacement applied never exceeds (1 - safety_tol) * safety, and the bound handed to
+    find_safety(max_step) is large enough for that comparison."""
+    import re
+    r = ctx.rng
+    tpl = open(os.path.join(HERE, "harness", "msc_frag.cc.in")).read()
+    for ph, rel, rx in FRAGS:
+        path = os.path.join(vlib.REPO, rel)
+        try:
+            txt = open(path).read()
+        except OSError:
+            txt = ""
+        m = re.search(rx, txt, re.S)
+        if not m:
+            ctx.violation("tie-broken", "cannot find the modelled statements in %s (source shape changed): the model C11/Msc.v "
+                          "has to be re-validated against the new code" % rel, {"file": rel, "pattern": rx}, no_input=True)
+            return False
+        tpl = tpl.replace(ph, m.group(1))
+    src = os.path.join(ctx.work, "msc_frag.cc")
+    with open(src, "w") as f:
+        f.write(tpl)
+    try:
+        exe = ctx.compile_harness([src], "msc_frag", libs=["corecel"])
+    except vlib.BuildError as e:
+        ctx.violation("tie-broken", "the extracted MSC statements no longer compile in the harness context "
+                      "(props/C11/harness/msc_frag.cc.in): %s" % str(e)[:300], {"source": src}, no_input=True)
+        return False
+    MM = 0.1   # units::millimeter in CGS
+    cases = []
+    for i in range(n):
+        tol = r.choice([0.01, 0.01, 0.01, 0.05, 1e-3, 0.5])
+        glim = r.choice([5e-8 * MM, 5e-8 * MM, 0.0, 1e-6])
+        tru = 10 ** r.uniform(-8, 1)
+        geom = tru * r.choice([1.0, 1 - 1e-12, 0.999, 0.9, 0.5, r.uniform(0.1, 1)])
+        cd = 0.73 * math.sqrt(max(0.0, (tru - geom) * (tru + geom)))
+        # safety around the three regimes: far larger than / comparable with / smaller than the displacement, zero, inf
+        k = r.choice([0.0, 1e-3, 0.5, 0.98, 1.0 / (1 - tol) * 0.999, 1.0 / (1 - tol) * 1.001, 1.02, 2.0, 1e3, INF])
+        safety = cd * k if cd > 0 and k != INF else (INF if k == INF else r.choice([0.0, 1e-9, 1e-3]))
+        # displacement length right at geom_limit
+        if r.random() < 0.15 and glim > 0:
+            safety = glim / (1 - tol) * r.choice([0.999, 1.001])
+        ud = unit3(r)
+        disp = 1 if r.random() < 0.85 else 0
+        cases.append(("disp", (tol, glim, disp, safety, geom, tru, ud)))
+        cases.append(("query", (tol, glim, disp, geom, tru, safety)))
+        cases.append(("cdisp", (geom, tru)))
+        rng_ = 10 ** r.uniform(-4, 2)
+        sf = r.choice([0.6, 0.6, 0.3, 1.0])
+        saf = rng_ * r.choice([0.0, 1e-3, 0.1, 0.5, 0.999, 1.001, 2.0])
+        rf = r.choice([0.04, 0.04, 0.2, 0.02]); ri = rng_ * r.choice([1.0, 1.0, 3.0]); lmin = r.choice([1e-9, 1e-7, rng_ * 0.05, rng_ * 0.5])
+        cases.append(("limit", (saf, rng_, rf, ri, lmin, sf)))
+        lim = max(max(rf * ri, sf * saf) if saf < rng_ else rng_, lmin)
+        ms = lim * r.choice([0.5, 0.999, 1.001, 1.5, 10.0])
+        lm2 = r.choice([lmin, lmin, lim])
+        if lm2 > ms:
+            lm2 = ms * 0.5
+        z = r.gauss(0, 1) * r.choice([1, 1, 10, 100])
+        cases.append(("sample", (ms, lim, lm2, z)))
+    lines, exprs = [], []
+    for cmd, a in cases:
+        if cmd == "disp":
+            tol, glim, disp, safety, geom, tru, ud = a
+            lines.append("disp %s %d %s %s" % (hx([tol, glim]), disp, hx([safety, geom, tru]), hx(ud)))
+            so = "None" if safety == INF else "(Some %s)" % hexf(safety)
+            exprs.append("run_msc_disp %s %s %s %s %s %s %s" % (hexf(tol), hexf(glim), "true" if disp else "false", so, hexf(geom), hexf(tru), v3(ud)))
+        elif cmd == "query":
+            tol, glim, disp, geom, tru, safety = a
+            lines.append("query %s %d %s" % (hx([tol, glim]), disp, hx([geom, tru, safety])))
+            so = "None" if safety == INF else "(Some %s)" % hexf(safety)
+            exprs.append("run_msc_query %s %s %s %s %s %s" % (hexf(tol), hexf(glim), "true" if disp else "false", hexf(geom), hexf(tru), so))
+        elif cmd == "cdisp":
+            lines.append("cdisp %s" % hx(a)); exprs.append("run_msc_cdisp %s %s" % tuple(hexf(x) for x in a))
+        elif cmd == "limit":
+            lines.append("limit %s" % hx(a)); exprs.append("run_msc_limit %s" % " ".join(hexf(x) for x in a))
+        else:
+            ms, lim, lm2, z = a
+            sampled = lim + (0.1 * (lim - lm2)) * z
+            lines.append("sample %s" % hx(a)); exprs.append("run_msc_sample %s" % " ".join(hexf(x) for x in (ms, lim, lm2, sampled)))
+    rc, out = ctx.run_harness(exe, input="\n".join(lines) + "\n")
+    outl = out.strip().splitlines()
+    if rc != 0 or len(outl) != len(lines):
+        raise vlib.BuildError("msc fragment harness failed rc=%d" % rc, out[-2000:])
+    mvals = ctx.coq_eval("msc", PRE, exprs, chunk=max(50, len(exprs) // 8 + 1), timeout=600)
+    found = False
+    nv = 0
+    def same(a, b):
+        return a == b or (a != INF and b != INF and abs(a - b) <= 1e-12 * max(abs(a), abs(b)) + 1e-300)
+    for (cmd, a), line, mv in zip(cases, outl, mvals):
+        tok = line.split()
+        ctx.count("msc:" + cmd)
+        replay = {"cmd": "msc-" + cmd, "args": a, "impl": line, "model": mv}
+        if tok[0] != "ok":
+            ctx.violation("tie-broken", "msc fragment harness error", replay, no_input=True); nv += 1
+            continue
+        vals = [pf(t) if not t.isdigit() else int(t) for t in tok[1:]]
+        bad = None; corr = None
+        if cmd == "disp":
+            tol, glim, disp, safety, geom, tru, ud = a
+            flag = int(tok[1]); d = [pf(t) for t in tok[2:5]]
+            dn = math.sqrt(sum(x * x for x in d))
+            ctx.case(("msc-disp", a), nontrivial=bool(flag))
+            if flag and safety != INF and dn > (1 - tol) * safety * (1 + 1e-12):
+                bad = ("MSC displacement |d| = %.17g exceeds (1 - safety_tol) * safety = %.17g (safety %.17g, tol %g): the displaced "
+                       "point can leave the safety sphere" % (dn, (1 - tol) * safety, safety, tol))
+            elif not flag and any(x != 0 for x in d):
+                bad = "displacement %r without the displaced action" % d
+            mflag, md = mv
+            if bad is None and (bool(flag) != mflag or not all(same(x, y) for x, y in zip(d, md))):
+                # knife edge: length within rounding of geom_limit
+                cd = 0.73 * math.sqrt(max(0.0, (tru - geom) * (tru + geom)))
+                ln = min(cd, (1 - tol) * safety)
+                if bool(flag) != mflag and abs(ln - glim) <= 1e-12 * glim:
+                    ctx.count("msc-knife-accepted")
+                else:
+                    corr = "displacement"
+        elif cmd == "query":
+            tol, glim, disp, geom, tru, safety = a
+            got_s, got_d, asked = pf(tok[1]), int(tok[2]), pf(tok[3])
+            ctx.case(("msc-query", a), nontrivial=bool(disp))
+            cd = 0.73 * math.sqrt(max(0.0, (tru - geom) * (tru + geom)))
+            if disp:
+                if not (asked >= cd / (1 - tol) * (1 - 1e-12) and asked >= glim):
+                    bad = ("find_safety(max_step) is asked only up to %.17g although UrbanMscScatter compares the displacement %.17g "
+                           "with (1 - %g) * safety" % (asked, cd, tol))
+                elif got_s != safety or got_d != (0 if safety == 0 else 1):
+                    bad = "safety query: returned safety %r / is_displaced %d for a find_safety answer %r" % (got_s, got_d, safety)
+            elif got_s != 0 or got_d != 0 or asked != -1:
+                bad = "safety queried / used although the step is not displaced"
+            mb, mdisp = mv
+            if bad is None and ((disp and not same(mb, asked)) or bool(got_d) != mdisp):
+                corr = "safety query"
+        else:
+            ctx.case(("msc-" + cmd, a), nontrivial=True)
+            got = pf(tok[1])
+            if cmd == "limit":
+                saf, rng_, rf, ri, lmin, sf = a
+                if got < lmin or (saf < rng_ and got < sf * saf):
+                    bad = "step limit %.17g below limit_min %.17g or safety_factor * safety %.17g" % (got, lmin, sf * saf)
+            if cmd == "sample":
+                ms, lim, lm2, z = a
+                if not (min(lm2, ms) <= got <= ms):
+                    bad = "sampled MSC step %.17g outside [limit_min %.17g, max_step %.17g]" % (got, lm2, ms)
+            if bad is None and not same(got, mv):
+                corr = cmd
+        if bad:
+            ctx.violation("oracle", bad, replay); found = True; nv += 1
+        elif corr:
+            ctx.violation("correspondence", "C11/Msc.v and the extracted MSC code differ in %s" % corr, replay, no_input=True); nv += 1
+        if nv > 6:
+            break
+    return found
+
+
 def run(ctx):
     quick = ctx.tier == "quick"
     ngeo = int(os.environ.get("VERIF_C11_NGEO", 0)) or (400 if quick else 3000)
@@ -301,6 +488,7 @@ def run(ctx):
         "the harness's dump of (simple_safety flag, faces, local position) per level, read from the real OrangeParams/state",
         "float instance of Num (Base/NumF.v); gap R vs binary64 rounding (DESIGN.md 3.1)",
         "IEEE characterisation of the NaN normal (0 * (1/0)) is part of the model (C11/Safety.v normal_is_nan)",
+        "hand-written model coq/C11/Msc.v tied to the safety-dependent statements of UrbanMsc.hh / UrbanMscScatter.hh / UrbanMscSafetyStepLimit.hh, which are extracted from the source at run time and compiled in a stub context (props/C11/harness/msc_frag.cc.in)",
     ]
     ctx.assumptions += [
         "theorems: every face has a defined normal at the point (faces_ok); where it is not, C11_safety_center_refuted applies (finding F4)",
@@ -423,47 +611,50 @@ def run(ctx):
             if bad is None and res["nbad"] > 0 and rmax_rep >= band:
                 bad = ("%d sample point(s) of the sphere of the largest reported safety radius are in another volume, e.g. %r "
                        "(find_safety() = %r, with max_step: %r)" % (res["nbad"], res["badp"], s, res["with_max_step"][:6]))
-            mvd = res["moved"]
-            if bad is None and mvd is not None:
-                # the same point reached by the navigator's own moves (move_internal(distance) and
-                # move_internal(position)) must be in the state of a fresh initialisation there
-                ctx.count("moved-point:levels=%d" % mvd["levels"])
-                if not mvd["same_path_dist"] and not mvd["same_path_pos"]:
-                    # both moves agree with each other but point location at the reached point finds another
-                    # volume path: the straight segment crossed something the navigator did not report (legacy
-                    # masked/overlapping cells in shipped .org.json files) - that is C03's property, not a safety question
-                    ctx.count("moved-point:path-differs-from-point-location(C03)")
-                    if len(ctx.notes) < 3:
-                        ctx.notes.append("navigator and point location disagree after a straight move (C03 territory): point %r dir %r step %r in %s"
-                                         % (p, mvd["dir"], mvd["step"], txt.splitlines()[0][:120]))
-                    mvd = None
-            if bad is None and mvd is not None:
-                sc = max([1.0, mvd["step"]] + [abs(x) for x in mvd["reached"]])
-                sf, mb = mvd["fresh"], mvd["min_next_step"]
-                for key in ("after_move_dist", "after_move_dist_maxstep", "after_move_pos", "after_move_pos_maxstep"):
-                    val = mvd[key]
-                    same = (val == sf) or (val != INF and sf != INF and abs(val - sf) <= 1e-9 * max(abs(val), abs(sf)) + 1e-9 * sc)
-                    if mb < 1e300 and val > mb * (1 + 1e-9) + 1e-12 and not same:
-                        bad = ("find_safety %s = %r exceeds the distance %r to the next boundary (fresh initialisation at the "
-                               "reached point %r gives safety %r)" % (key.replace("_", " "), val, mb, mvd["reached"], sf))
-                    elif not same:
-                        bad = ("find_safety %s = %r differs from the safety %r of a fresh initialisation at the same point %r"
-                               % (key.replace("_", " "), val, sf, mvd["reached"]))
+            for prog in ("moved", "bounced"):
+                mvd = res[prog]
+                if bad is None and mvd is not None:
+                    # the same point reached by the navigator's own moves (move_internal(distance) and
+                    # move_internal(position)) must be in the state of a fresh initialisation there
+                    ctx.count("%s-point:levels=%d" % (prog, mvd["levels"]))
+                    if not mvd["same_path_dist"] and not mvd["same_path_pos"]:
+                        # both moves agree with each other but point location at the reached point finds another
+                        # volume path: the straight segment crossed something the navigator did not report (legacy
+                        # masked/overlapping cells in shipped .org.json files) - that is C03's property, not a safety question
+                        ctx.count("%s-point:path-differs-from-point-location(C03)" % prog)
+                        if len(ctx.notes) < 3:
+                            ctx.notes.append("navigator and point location disagree after a straight move (C03 territory): point %r dir %r step %r in %s"
+                                             % (p, mvd["dir"], mvd["step"], txt.splitlines()[0][:120]))
+                        mvd = None
+                if bad is None and mvd is not None:
+                    sc = max([1.0, mvd["step"]] + [abs(x) for x in mvd["reached"]])
+                    sf, mb = mvd["fresh"], mvd["min_next_step"]
+                    for key in ("after_move_dist", "after_move_dist_maxstep", "after_move_pos", "after_move_pos_maxstep"):
+                        val = mvd[key]
+                        same = (val == sf) or (val != INF and sf != INF and abs(val - sf) <= 1e-9 * max(abs(val), abs(sf)) + 1e-9 * sc)
+                        if mb < 1e300 and val > mb * (1 + 1e-9) + 1e-12 and not same:
+                            bad = ("find_safety %s = %r exceeds the distance %r to the next boundary (fresh initialisation at the "
+                                   "reached point %r gives safety %r)" % (key.replace("_", " "), val, mb, mvd["reached"], sf))
+                        elif not same:
+                            bad = ("find_safety %s = %r differs from the safety %r of a fresh initialisation at the same point %r"
+                                   % (key.replace("_", " "), val, sf, mvd["reached"]))
+                        if bad:
+                            break
+                    if bad is None and (mvd["local_pos_dev_dist"] > 1e-9 * sc or mvd["local_pos_dev_pos"] > 1e-9 * sc):
+                        bad = ("after move_internal the local position of some level differs from the re-transformed one by %r (distance move) / %r (position move)"
+                               % (mvd["local_pos_dev_dist"], mvd["local_pos_dev_pos"]))
+                    if bad is None and not (mvd["same_path_dist"] and mvd["same_path_pos"]):
+                        bad = "volume path after move_internal differs from a fresh initialisation at %r" % (mvd["reached"],)
+                    rmv = max(mvd["after_move_dist"], mvd["after_move_dist_maxstep"], mvd["after_move_pos"], mvd["after_move_pos_maxstep"])
+                    if mvd["nbad"] > 0 and not (rmv >= band):
+                        ctx.count("not-judged:point-within-tolerance-of-a-boundary")
+                    if bad is None and mvd["nbad"] > 0 and not (sf == INF) and rmv >= band:
+                        bad = ("%d sample point(s) of the safety sphere around the moved point %r are in another volume, e.g. %r"
+                               % (mvd["nbad"], mvd["reached"], mvd["badp"]))
                     if bad:
-                        break
-                if bad is None and (mvd["local_pos_dev_dist"] > 1e-9 * sc or mvd["local_pos_dev_pos"] > 1e-9 * sc):
-                    bad = ("after move_internal the local position of some level differs from the re-transformed one by %r (distance move) / %r (position move)"
-                           % (mvd["local_pos_dev_dist"], mvd["local_pos_dev_pos"]))
-                if bad is None and not (mvd["same_path_dist"] and mvd["same_path_pos"]):
-                    bad = "volume path after move_internal differs from a fresh initialisation at %r" % (mvd["reached"],)
-                rmv = max(mvd["after_move_dist"], mvd["after_move_dist_maxstep"], mvd["after_move_pos"], mvd["after_move_pos_maxstep"])
-                if mvd["nbad"] > 0 and not (rmv >= band):
-                    ctx.count("not-judged:point-within-tolerance-of-a-boundary")
-                if bad is None and mvd["nbad"] > 0 and not (sf == INF) and rmv >= band:
-                    bad = ("%d sample point(s) of the safety sphere around the moved point %r are in another volume, e.g. %r"
-                           % (mvd["nbad"], mvd["reached"], mvd["badp"]))
-                if bad:
-                    bad = "after init at the point and a move along %r by %r: %s" % (mvd["dir"], mvd["step"], bad)
+                        bad = (("after init at the point and a move along %r by %r: %s" % (mvd["dir"], mvd["step"], bad)) if prog == "moved" else
+                           ("after init at the point along %r, move_to_boundary (%r away), set_dir(reverse) on the boundary (re-entrant), "
+                            "cross_boundary, find_next_step, move_internal(%r): %s" % (mvd["dir"], mvd["distance_to_boundary"], mvd["step"], bad)))
             if bad:
                 nanf = nan_normal_faces(res["levels"])
                 sig = F4_SIG if (nanf and (s == INF or s > m)) else None
@@ -476,7 +667,7 @@ def run(ctx):
                               {"geometry": txt, "point": p, "point_hex": [float(x).hex() for x in p], "find_safety": s,
                                "min_find_next_step": m, "direction": res["mindir"], "levels": res["levels"],
                                "find_safety_with_max_step": res["with_max_step"], "level_safety": res["level_safety"],
-                               "moved": res["moved"],
+                               "moved": res["moved"], "bounced": res["bounced"],
                                "nan_normal_faces": nanf}, signature=sig)
                 if sig is None:
                     found = True
@@ -515,6 +706,7 @@ def run(ctx):
                            "theorem": "Properties_C11.v is about a model that no longer matches the code"}, no_input=True)
             if ndis > 5:
                 break
+    check_msc(ctx, 300 if quick else 3000)
     if not proofs_ok:
         ctx.violation("proof-broken", "Properties_C11.v no longer checks", ctx.broken_proof, no_input=True)
     ctx.coverage["rule"] = ("case = (generated geometry: world sphere/box with 1-5 grid-placed children per unit, children = translated/rotated/reflected "
